@@ -539,3 +539,185 @@ def rule_globalmut_direct(report, index, clause=None):
                  {"objects": sorted(f"{k[0]}:{(k[1] + '.') if k[1] else ''}{k[2]}" for k in globs)[:60],
                   "sites_found": n_sites}, clause)
     return len(globs)
+
+
+# --------------------------------------------------------------------------
+# R-MEMO: a memoised function hands the SAME object to every caller
+
+MEMO_DECORATORS = {"functools.lru_cache", "functools.cache"}
+_IMMUTABLE_CALLS = {"str", "int", "float", "bool", "tuple", "frozenset", "len", "round", "abs", "min", "max", "sum", "repr",
+                    "bytes", "ord", "chr", "hash", "divmod", "re.compile", "fractions.Fraction", "decimal.Decimal"}
+_STR_METHODS = {"strip", "lstrip", "rstrip", "lower", "upper", "format", "join", "replace", "title", "capitalize", "zfill",
+                "ljust", "rjust", "center", "casefold", "swapcase", "encode", "decode", "group", "hex"}
+_READONLY_METHODS = {"get", "keys", "values", "items", "index", "count", "copy"}
+
+
+def _memo_decorator(index, fn):
+    """the memoising decorator of `fn` (resolved through the module's imports), or None"""
+    for d in fn.node.decorator_list:
+        target = d.func if isinstance(d, ast.Call) else d
+        b = index.resolve_expr(fn.module, target)
+        if b is not None and b.kind == "external" and b.target in MEMO_DECORATORS:
+            return ast.unparse(d)
+    return None
+
+
+def _own_nodes(fn_node):
+    """nodes of the function body, nested definitions excluded"""
+    todo = list(fn_node.body)
+    while todo:
+        n = todo.pop()
+        yield n
+        for c in ast.iter_child_nodes(n):
+            if not isinstance(c, (ast.FunctionDef, ast.AsyncFunctionDef, ast.Lambda, ast.ClassDef)):
+                todo.append(c)
+
+
+def _value_kind(expr, fn, index, depth=0):
+    """'immutable' | 'object' (an instance of a pycaption class) | 'container' (list / dict / set) | 'unknown'"""
+    if expr is None or isinstance(expr, (ast.Constant, ast.JoinedStr, ast.Compare)):
+        return "immutable"
+    if isinstance(expr, ast.BoolOp):
+        kinds = {_value_kind(v, fn, index, depth) for v in expr.values}
+        return kinds.pop() if len(kinds) == 1 else ("unknown" if "unknown" in kinds else sorted(kinds - {"immutable"})[0])
+    if isinstance(expr, ast.IfExp):
+        kinds = {_value_kind(expr.body, fn, index, depth), _value_kind(expr.orelse, fn, index, depth)}
+        return kinds.pop() if len(kinds) == 1 else ("unknown" if "unknown" in kinds else sorted(kinds - {"immutable"})[0])
+    if isinstance(expr, ast.Tuple):
+        kinds = {_value_kind(e, fn, index, depth) for e in expr.elts} or {"immutable"}
+        return kinds.pop() if len(kinds) == 1 else ("unknown" if "unknown" in kinds else sorted(kinds - {"immutable"})[0])
+    if isinstance(expr, (ast.List, ast.Dict, ast.Set, ast.ListComp, ast.DictComp, ast.SetComp)):
+        return "container"
+    if isinstance(expr, ast.UnaryOp):
+        return "immutable"
+    if isinstance(expr, ast.BinOp):
+        kinds = {_value_kind(expr.left, fn, index, depth), _value_kind(expr.right, fn, index, depth)}
+        return "container" if "container" in kinds else "immutable" if kinds == {"immutable"} else "unknown"
+    if isinstance(expr, ast.Call):
+        if isinstance(expr.func, ast.Attribute) and expr.func.attr in _STR_METHODS:
+            return "immutable"
+        b = index.resolve_expr(fn.module, expr.func)
+        if b is not None and b.kind == "class":
+            bases = {x for c in b.target.mro() for x in c.external_bases()} if hasattr(b.target, "mro") else set()
+            return "immutable" if any(str(x).split(".")[-1] in ("Enum", "IntEnum") for x in bases) else "object"
+        cn = call_name(expr)
+        if b is not None and b.kind == "external":
+            cn = b.target
+        if cn in _IMMUTABLE_CALLS or (cn or "").split(".")[-1] in ("compile",):
+            return "immutable"
+        if cn and cn.split(".")[-1] in MUTABLE_FACTORY_NAMES | {"deepcopy", "copy", "sorted", "list", "dict", "set"}:
+            return "container"
+        if b is not None and b.kind == "func" and depth < 3:
+            return _returned_kind(b.target, index, depth + 1)
+        return "unknown"
+    if isinstance(expr, ast.Name):
+        if expr.id in {a.arg for a in fn.node.args.posonlyargs + fn.node.args.args + fn.node.args.kwonlyargs}:
+            return "unknown"
+        values = [st.value for st in _own_nodes(fn.node) if isinstance(st, ast.Assign)
+                  and any(isinstance(t, ast.Name) and t.id == expr.id for t in st.targets)]
+        if values and depth < 3:
+            kinds = {_value_kind(v, fn, index, depth + 1) for v in values}
+            return kinds.pop() if len(kinds) == 1 else ("unknown" if "unknown" in kinds else sorted(kinds - {"immutable"})[0])
+        return "unknown"
+    return "unknown"
+
+
+def _returned_kind(fn, index, depth=0):
+    rets = [n.value for n in _own_nodes(fn.node) if isinstance(n, ast.Return)]
+    if any(isinstance(n, (ast.Yield, ast.YieldFrom)) for n in _own_nodes(fn.node)):
+        return "container"          # a generator object: consumed by its first user
+    kinds = {_value_kind(v, fn, index, depth) for v in rets} or {"immutable"}
+    if "object" in kinds:
+        return "object"
+    if "container" in kinds:
+        return "container"
+    return "unknown" if "unknown" in kinds else "immutable"
+
+
+def _uses_of_result(index, fn):
+    """how the call sites of `fn` use its result: [] when every use only reads it"""
+    writes = []
+    name = fn.node.name
+    for other in index.all_functions():
+        parents = {}
+        for n in ast.walk(other.node):
+            for c in ast.iter_child_nodes(n):
+                parents[c] = n
+        for n in ast.walk(other.node):
+            if not (isinstance(n, ast.Call) and (isinstance(n.func, ast.Name) and n.func.id == name
+                                                 or isinstance(n.func, ast.Attribute) and n.func.attr == name)):
+                continue
+            p = parents.get(n)
+            if isinstance(p, ast.Subscript) and p.value is n and isinstance(p.ctx, ast.Load):
+                continue
+            if isinstance(p, ast.Compare) or isinstance(p, (ast.For, ast.comprehension)) and p.iter is n:
+                continue
+            if isinstance(p, ast.Attribute) and p.attr in _READONLY_METHODS and isinstance(parents.get(p), ast.Call):
+                continue
+            if isinstance(p, ast.Call) and call_name(p) in ("len", "sorted", "list", "tuple", "set", "dict", "frozenset", "any", "all",
+                                                            "sum", "min", "max", "str", "bool", "enumerate", "iter"):
+                continue
+            if isinstance(p, (ast.If, ast.While, ast.BoolOp, ast.UnaryOp)):
+                continue
+            writes.append(f"{other.module.path}:{n.lineno} {other.qualname}: {short(p if p is not None else n)}")
+    return writes
+
+
+def rule_memo(report, index, clause=None):
+    """A function under functools.lru_cache / functools.cache returns ONE object to all callers with equal arguments, for
+    the life of the process.  That is invisible for immutable results; a caption-model or geometry object, or a container
+    that a caller stores or edits, is then shared between the caption sets of different reads (and writes)."""
+    rule = "R-MEMO"
+    n_fn = n_memo = 0
+    for fn in index.all_functions():
+        n_fn += 1
+        deco = _memo_decorator(index, fn)
+        if deco is None:
+            continue
+        n_memo += 1
+        kind = _returned_kind(fn, index)
+        construct = f"@{deco} on {fn.qualname}"
+        if kind == "immutable":
+            report.ok(rule, fn, construct, "every returned value is immutable", clause)
+        elif kind == "object":
+            report.violation(rule, fn, construct, {"why": "the function builds an object of a pycaption class; under the decorator "
+                                                          "every caller with equal arguments receives that one object, so caption sets "
+                                                          "of different reads share it and an edit of one shows in the others"}, clause)
+        elif kind == "container":
+            uses = _uses_of_result(index, fn)
+            if uses:
+                report.violation(rule, fn, construct, {"why": "the function builds a list / dict / set; every caller receives the "
+                                                              "same one, and these call sites keep or pass it on",
+                                                       "call_sites": uses[:4]}, clause)
+            else:
+                report.ok(rule, fn, construct, "the shared container is only read at every call site", clause)
+        else:
+            report.info(rule, fn, construct, {"not_decided": "the kind of the returned value was not recognised"}, clause)
+    report.ok(rule, ("pycaption", "<package>"), f"scanned {n_fn} functions for memoising decorators ({n_memo} found)", None, clause)
+    return n_fn, n_memo
+
+
+def rule_memo_selftest(index_factory):
+    """the rule must fire on a memoised constructor and stay silent on a memoised string function (expected count on the
+    real tree is zero, so the rule proves on every run that it can match)"""
+    src = ("import functools\nfrom functools import lru_cache\n"
+           "class Box:\n    def __init__(self, v):\n        self.v = v\n"
+           "@functools.lru_cache(maxsize=None)\ndef shared(v):\n    return Box(v)\n"
+           "@lru_cache\ndef label(v):\n    return f'row {v}'.strip()\n")
+    idx = index_factory({"pycaption/__init__.py": "", "pycaption/memo_example.py": src})
+
+    class _R:
+        def __init__(self):
+            self.v, self.o = [], []
+
+        def ok(self, rule, where, construct, *a):
+            self.o.append(construct)
+
+        def violation(self, rule, where, construct, *a):
+            self.v.append(construct)
+
+        info = ok
+    r = _R()
+    rule_memo(r, idx)
+    if not (len(r.v) == 1 and "shared" in r.v[0] and any("label" in c for c in r.o)):
+        raise AnalysisError(f"R-MEMO self-test: expected one violation (shared) and one OK (label), got {r.v} / {r.o}")
